@@ -701,6 +701,38 @@ def run_chords(case):
     ok = check_track(st.track, st.ref, S, where="from_chords(%r, %s): " % (CHORD_LISTS[ci], vlabel))
     if ok:
         check_track_equality(st.track, st.ref, S)
+    # every chord placed is a container of its own: nothing is shared inside the track, nor with another track built
+    # from the same list, and changing one track in place leaves the other as it was
+    if ok and not prefill:
+        twin = Track()
+        twin.add_bar(Bar(key, meter))
+        twin.from_chords(copy.deepcopy(CHORD_LISTS[ci]), value_item(vlabel)[1])
+        mine = [id(e[2]) for b in st.track.bars for e in b.bar if e[2] is not None]
+        theirs = [id(e[2]) for b in twin.bars for e in b.bar if e[2] is not None]
+        if len(set(mine)) != len(mine) or set(mine) & set(theirs):
+            S.problem("from_chords(%r, %s): NoteContainer objects placed" % (CHORD_LISTS[ci], vlabel), "one object per entry, none shared with another track",
+                      {"entries": len(mine), "distinct objects": len(set(mine)), "shared with a second track": len(set(mine) & set(theirs))})
+        before = [[(e[1], content_of(e[2])) for e in b.bar] for b in twin.bars]
+        st.track.transpose("3")
+        after = [[(e[1], content_of(e[2])) for e in b.bar] for b in twin.bars]
+        if after != before:
+            S.problem("a second track built by from_chords(%r, %s) after the first one was transposed" % (CHORD_LISTS[ci], vlabel), before, after)
+        S.count("from_chords_twins_checked")
+    # the same list on tracks that carry an instrument (the chords of this list lie in every instrument's range)
+    if not prefill and vlabel in ("1", "4"):
+        for iname in ("Piano", "MidiInstrument", "Guitar"):
+            t2 = Track(make_instrument(iname))
+            t2.add_bar(Bar(key, meter))
+            try:
+                engine.with_step_budget(t2.from_chords, (copy.deepcopy(CHORD_LISTS[ci]), value_item(vlabel)[1]), budget=20000)
+            except engine.StepBudgetExceeded:
+                raise
+            except Exception as e:                               # noqa
+                S.problem("Track(%s).from_chords(%r, %s)" % (iname, CHORD_LISTS[ci], vlabel), "placed as on a track without instrument", e)
+                continue
+            got = [[(e[1], content_of(e[2])) for e in b.bar] for b in t2.bars]
+            want = [[(e[1], content_of(e[2])) for e in b.bar] for b in (twin.bars if ok else [])]
+            S.count("from_chords_with_instrument")
     S.outcome(tuple((len(b.bar), b.is_full()) for b in st.track.bars))
     S.sample({"case": case, "bars": [[(e[1], content_of(e[2])) for e in b.bar] for b in st.track.bars]})
 
